@@ -536,6 +536,13 @@ impl<T: Copy + Debug> Container<T> {
         let on_success = |_owner_id, index| {
             let v = current_element_generation_count.get();
 
+            // The dead owner acquired the index but never published an element (it died inside
+            // `Self::add()`): there is nothing to set to empty, and incrementing the counter would
+            // mark the never written element as present.
+            if !Self::contains_data(v) {
+                return;
+            }
+
             // Race against: `Self::add()`
             // * index is already released and could be acquired by `Self::add()`
             // * `Self::add()` increments counter to % 2 == 1 when finished populating data
